@@ -14,7 +14,8 @@ func init() { register("C06", "other", checkC06) }
 
 func checkC06(w *World, r *Result) {
 	r.Explanation = "Decides structural necessary conditions on generator/dart: CONS both struct loops (class declaration and JSON routines) are json consumers; AGR-C06a the two loops have the same leading filter and derive the Dart field identifier the same way, so constructor parameters and fromJson arguments align; AGR-C02b union dispatch uses the members' local Go names on both the decoding and the encoding side; REC-SHAPE/EXH-b typeName and jsonID never follow a child buffer.generate skips and accept the same kinds; AGR-C06p every jsonFor* helper is only called from the code* function of the same node; FLW-C06b the file name returned by every buffer.generate(child) call inside a code* function flows into the imports that function returns, and the import emission skips exactly the file itself; AGR-C06c buffer.generate returns, on every path, the file computed for the node itself (Linker.GetOutput of its own type, the parent's only for anonymous maps and arrays), and Linker.GetOutput/OutputFiles read the same table; AGR-C10b/PTH-C10a/AGR-C10s the iota flag that licenses the positional conversion is decided on exactly the exported constants, after the integer, non-negative, gap and duplicate tests and the sort by value (rules shared with C10); AGR-C06i enum tables list exactly the exported constants and `implements` lists exactly the exported unions of Implements; AGR-C06e the index-based enum mapping is used exactly when IsIota; DECL-ID declaration IDs cover what their content reads; GEN-ID every name derived from a go/types Named also covers its type arguments, so two instantiations of one generic type are two classes; TPL-4 bracket balance of the constant templates; AGR-C06q buffer.generate leaves before the emission only under the named-type memo (or a per-file memo), so the list/dict helpers of an anonymous container are written into every file that reaches it. Does not decide: Dart syntax beyond balance, identity of member<->value conversion as a value-level fact."
-	r.Rules = []string{"CONS", "FLW-C09a", "AGR-C09b", "AGR-C06a", "AGR-C02b", "REC-SHAPE", "EXH-b", "AGR-C06p", "FLW-C06b", "AGR-C06j", "AGR-C06c", "AGR-C06r", "AGR-C10b", "PTH-C10a", "AGR-C10s", "SORT-PAR", "AGR-C06i", "AGR-C11i", "AGR-C06e", "DECL-ID", "GEN-ID", "CONST-EXACT", "UTF8-SLICE", "TPL-4", "ALIAS-APPEND", "PRINTF", "CACHE-DROP", "MUT-AN", "AGR-C09c", "POS-ORDER", "AGR-C06q"}
+	r.Rules = []string{"CONS", "FLW-C09a", "AGR-C09b", "AGR-C06a", "AGR-C02b", "REC-SHAPE", "EXH-b", "AGR-C06p", "FLW-C06b", "AGR-C06j", "AGR-C06c", "AGR-C06r", "AGR-C10b", "PTH-C10a", "AGR-C10s", "SORT-PAR", "AGR-C06i", "AGR-C11i", "AGR-C06e", "DECL-ID", "GEN-ID", "CONST-EXACT", "UTF8-SLICE", "TPL-4", "ALIAS-APPEND", "PRINTF", "CACHE-DROP", "MUT-AN", "AGR-C09c", "POS-ORDER", "AGR-C06q", "BYTES-KIND"}
+	bytesKindRule(w, r, "generator/dart", "generator/dart.typeName")
 	checkDartNoForeignSkip(w, r)
 	posOrderRule(w, r, func(rel string) bool { return rel == "analysis" || rel == "generator/dart" })
 	mutAnRule(w, r, func(rel string) bool { return rel == "generator/dart" })
